@@ -6,6 +6,7 @@ mod c14;
 mod c15;
 mod c11;
 mod c10;
+mod pg;
 mod aut;
 mod dom;
 mod autprops;
@@ -61,6 +62,16 @@ fn main() {
         let text = std::fs::read_to_string(&file).expect("replay file");
         // a replay file is JSON with a "replay" field holding the s-expression, or the bare line
         let line = extract_replay(&text);
+        if line.starts_with("(pgcase") {
+            pg::replay(&line, "", &mut o);
+            o.write(&outdir);
+            return;
+        }
+        if line.starts_with("(pgc11") {
+            pg::replay_c11(&line, &mut o);
+            o.write(&outdir);
+            return;
+        }
         match prop.as_str() {
             "c12" => c12::replay(&line, &mut o),
             "c13" => c13::replay(&line, &mut o),
@@ -81,6 +92,16 @@ fn main() {
             "c11" => c11::run(tier, seed, &mut o),
             "c10" => c10::run(tier, seed, &mut o),
             "c01" | "c02" | "c03" | "c04" | "c05" | "c06" | "c07" | "c08" | "c09" | "c17" => autprops::run(&prop, tier, seed, &mut o),
+            "pg01" => pg::run("c01", tier, seed, &mut o),
+            "pg02" => pg::run("c02", tier, seed, &mut o),
+            "pg03" => pg::run("c03", tier, seed, &mut o),
+            "pg04" => pg::run("c04", tier, seed, &mut o),
+            "pg05" => {
+                pg::run("c05", tier, seed, &mut o);
+                pg::run_weighted(tier, seed, &mut o);
+            }
+            "pg08" => pg::run("c08", tier, seed, &mut o),
+            "pg11" => pg::run_c11(tier, seed, &mut o),
             "c17fp" => {
                 print!("{}", autprops::fingerprints(tier, seed));
                 return;
